@@ -14,7 +14,7 @@ import os
 
 PROPERTY = 'C19'
 LEVEL = 'model_checking'
-BUDGET_S = {'quick': 900, 'thorough': 7200}
+BUDGET_S = {'quick': 3600, 'thorough': 14400}
 
 TIER = {'quick': dict(L=6, R=2, NE=3, W=16), 'thorough': dict(L=10, R=3, NE=3, W=16)}
 
